@@ -71,6 +71,7 @@ PSh(k, o) == IF k = "NP24" /\ o.sub THEN {0} ELSE ShOf(k)      \* the shanks thi
 Forms == {"bin", "cbin"}
 Founds == {"none"}
 SubRuns == FALSE      \* whether runs restricted to the first shank (`sub`) are explored
+Faults == FALSE       \* whether a shank file may be damaged before the verification (action Damage)
 FormSt(form, x) ==
     IF x = "orig" THEN (IF form \in {"bin", "both", "binS"} THEN "C" ELSE IF form = "cbinS" THEN "P" ELSE "A")
     ELSE (IF form \in {"cbin", "both", "cbinS"} THEN "C" ELSE IF form = "binS" THEN "P" ELSE "A")
@@ -179,9 +180,17 @@ MetaLF ==
 \* check_NP24: compares every window, then closes its readers and only then sets check_completed.  When only one shank was
 \* split off (`sub`) the reassembled windows differ from the original in the other shanks' channels: the comparison fails,
 \* the run ends there ("refused") and nothing is deleted.
+\* A second kind of fault (beside the interruption): between the end of the window loop and the verification a shank AP file
+\* is damaged (a bad block, a concurrent writer) - the verification exists for this.  It must then refuse whatever window the
+\* damage lies in.
+Damage ==
+    /\ Faults /\ rpc = "check" /\ kind = "NP24"
+    /\ \E s \in PSh(kind, opts) : fs[K("ap", s)] \in {"C", "Q"} /\ fs' = Set1(fs, K("ap", s), "P")
+    /\ UNCHANGED <<kind, opts, rpc, widx, cs, cph, csub, checkDone, verified, status, nruns, fs0>>
+Damaged == \E s \in PSh(kind, opts) : fs[K("ap", s)] # DoneSt(opts)
 Check ==
     /\ rpc = "check"
-    /\ IF opts.sub
+    /\ IF opts.sub \/ Damaged
        THEN fs' = fs /\ Finish("refused")
        ELSE rpc' = "check_closing" /\ UNCHANGED <<kind, fs, opts, widx, cs, cph, csub, checkDone, verified, status, nruns, fs0>>
 CheckClosing ==
@@ -246,7 +255,7 @@ Stutter == UNCHANGED vars
 \* an interruption (exception, kill) after any step of a run
 Crash == /\ rpc \notin {"idle"} /\ fs' = fs /\ Finish("crashed")
 
-Step == Prepare \/ Window \/ Close \/ MetaAP \/ MetaLF \/ Check \/ CheckClosing \/ CompressOrig
+Step == Prepare \/ Window \/ Close \/ MetaAP \/ MetaLF \/ Damage \/ Check \/ CheckClosing \/ CompressOrig
         \/ CompressOrigRm \/ UnlinkStale \/ UnlinkStaleRaises \/ CompressFile \/ UnlinkBin \/ Delete \/ Return
 Next == (\E o \in Opts : Begin(o)) \/ (\E ow \in BOOLEAN : BeginReuse(ow)) \/ Step \/ Crash
 Spec == Init /\ [][Next]_vars
@@ -273,7 +282,7 @@ CompleteSet(k, o, f) ==
 \* outcome of a finished run: st = its status, b / e = directory at its begin / end
 OutcomeP(k, o, st, b, e) ==
     /\ st # "raised"                                                   \* no failure nobody injected
-    /\ st = "refused" => (o.sub /\ o.chk /\ k = "NP24")                 \* the verification fails only when it has to
+    /\ st = "refused" => (o.chk /\ k = "NP24" /\ (o.sub \/ \E s \in PSh(k, o) : e[K("ap", s)] \notin {"C", "Q"}))   \* the verification fails only when it has to
     /\ (k = "NP1") => (st \in {"m1", "crashed"} /\ e = b)
     /\ (k = "split") => (st \in {"0", "crashed"} /\ e = b)
     /\ st = "0" => e = b                                                  \* "did nothing" means nothing changed
